@@ -110,17 +110,17 @@ _tpl = {"ttl_digit": "last TTL digit any ASCII byte", "ttl_edge": "TTL 429496729
 _tpl["ns_lastchar"] = "last character of an NS target: accepted iff letter, digit, hyphen, space or tab"
 for k, v in _tpl.items():
     _q = k in ("octet_edge",)
-    add("synth_tpl_" + k, ["C13"], tier="quick" if _q else "thorough", timeout=1200 if _q else 7200, est=200 if _q else 3000, mem_gb=24 if _q else 48,
+    add("synth_tpl_" + k, ["C13"], tier="quick" if _q else "thorough", timeout=1200 if _q else 3600, est=200 if _q else 3000, mem_gb=24 if _q else 48,
         path="registry::h_c13::proofs::" if _q else "registry::h_c13_t::proofs::", funcs=_f13p,
         bound="RR::from_string on a concrete record text with one symbolic byte X (all 128 ASCII values): " + v + "; accepted <=> in grammar, wire form == RFC 1035 encoding")
-add("synth_arbitrary_3", ["C13"], tier="thorough", timeout=7200, est=3000, mem_gb=48, path="registry::h_c13_t::proofs::", funcs=_f13p,
+add("synth_arbitrary_3", ["C13"], tier="thorough", timeout=3600, est=3000, mem_gb=48, path="registry::h_c13_t::proofs::", funcs=_f13p,
     bound="RR::from_string on every ASCII string of length <= 3: no panic, error")
 for n, what in (("a_an", "A into answer"), ("mx_ns", "MX into authority"), ("txt_ar", "TXT (with a decimal escape) into additional")):
     _q = n != "txt_ar"
-    add("synth_insert_" + n, ["C13"], tier="quick" if _q else "thorough", timeout=1500 if _q else 7200, est=300, mem_gb=24 if _q else 48, fs=300, path="registry::h_c13::proofs::" if _q else "registry::h_c13_t::proofs::", funcs=_f13p + ["ParsedPacket::insert_rr_from_string", "ParsedPacket::insert_rr", "DNSSector::parse"],
+    add("synth_insert_" + n, ["C13"], tier="quick" if _q else "thorough", timeout=1500 if _q else 3600, est=300, mem_gb=24 if _q else 48, fs=300, path="registry::h_c13::proofs::" if _q else "registry::h_c13_t::proofs::", funcs=_f13p + ["ParsedPacket::insert_rr_from_string", "ParsedPacket::insert_rr", "DNSSector::parse"],
         bound="insert_rr_from_string(valid concrete text: %s) on skeleton r_a_aaaa x all payload: the parser accepts the result" % what)
 for n in ("4", "5"):
-    add("synth_arbitrary_" + n, ["C13"], tier="thorough", timeout=5400, est=2000, mem_gb=32, path="registry::h_c13_t::proofs::", funcs=_f13p,
+    add("synth_arbitrary_" + n, ["C13"], tier="thorough", timeout=3600, est=2000, mem_gb=32, path="registry::h_c13_t::proofs::", funcs=_f13p,
         bound="RR::from_string on every ASCII string of length <= %s: no panic, error" % n)
 for n in ("0", "1", "510", "511"):
     add("synth_txt_" + n, ["C13"], tier="thorough", timeout=1800, est=100, fs=1100, path="registry::h_c13_t::proofs::", funcs=_f13,
